@@ -14,12 +14,27 @@ pub async fn build_target(
     let target_start = Instant::now();
     log::info!("{} - Building", target);
 
+    #[cfg(zinoma_verif)]
+    if let Some(outcome) =
+        crate::verif::virtual_build(&target.metadata.id.to_string(), &mut build_cancellation_events).await
+    {
+        return match outcome {
+            crate::verif::VirtualOutcome::Completed => Ok(BuildTerminationReport::Completed),
+            crate::verif::VirtualOutcome::Cancelled => Ok(BuildTerminationReport::Cancelled),
+            crate::verif::VirtualOutcome::Failed => Err(anyhow!("Build failed with virtual exit status")),
+        };
+    }
+
     let mut command = run_script::build_command(&target.build_script, &target.metadata.project_dir);
     command.stdout(Stdio::inherit()).stderr(Stdio::inherit());
 
     let mut build_process = command
         .spawn()
         .with_context(|| format!("Failed to spawn build command for {}", target))?;
+    #[cfg(zinoma_verif)]
+    let pid = build_process.id();
+    #[cfg(zinoma_verif)]
+    crate::verif::emit("build_spawned", &target.metadata.id.to_string(), &[("pid", pid.to_string())]);
 
     futures::select! {
         _ = build_cancellation_events.next().fuse() => {
@@ -30,10 +45,14 @@ pub async fn build_target(
             if let Err(e) = build_process.status().await {
                 log::error!("{} - Failed to await build process: {}", target, e)
             }
+            #[cfg(zinoma_verif)]
+            crate::verif::emit("build_reaped", &target.metadata.id.to_string(), &[("pid", pid.to_string()), ("how", crate::verif::js("killed"))]);
             Ok(BuildTerminationReport::Cancelled)
         },
         result = build_process.status().fuse() => {
             let exit_status = result?;
+            #[cfg(zinoma_verif)]
+            crate::verif::emit("build_reaped", &target.metadata.id.to_string(), &[("pid", pid.to_string()), ("how", crate::verif::js(if exit_status.success() { "ok" } else { "fail" }))]);
             if !exit_status.success() {
                 return Err(anyhow!("Build failed with {}", exit_status));
             }
